@@ -2,6 +2,7 @@
     table before commit, commit before ref, prune deletes commits last, refs after objects. *)
 From Coq Require Import List NArith String Bool.
 From W.gen Require Import Extracted TieLib.
+From W.model Require Import Crash.
 Import ListNotations.
 Open Scope string_scope.
 
@@ -31,4 +32,13 @@ Example tie_fetch_order : before "fetchObjects" "saveFetchedRefs" skel_fetch = t
 Proof. vm_compute; reflexivity. Qed.
 
 Example tie_prune_commit_order : prune_commit_order = "childrenFirst".
+Proof. vm_compute; reflexivity. Qed.
+
+(* through the model: the regenerated skeletons satisfy the order predicates that every
+   theorem of props/C13.v is parametric in (skels_ok) *)
+Example tie_c13_model : skels_ok (mk_skels skel_ingest skel_insert_block skel_recv_table
+     skel_index_table skel_recv_commit skel_fetch skel_prune skel_prune_tables prune_commit_order
+     skel_cmd_commit skel_cmd_commit_with_table skel_cmd_merge_result skel_cmd_create_merge) = true.
+Proof. vm_compute; reflexivity. Qed.
+Example tie_setwithlog_atomic : setwithlog_shape = "RunInTx".
 Proof. vm_compute; reflexivity. Qed.
